@@ -1,6 +1,7 @@
 SPECIFICATION GSpec
 CONSTANTS
   MaxSteps = 5
+  Variant = "asWritten"
   Codes = {101, 103, 200, 404}
-INVARIANTS Emit CodeOK LastWins
+INVARIANTS Emit FreshAfterReset CodeOK LastWins
 CHECK_DEADLOCK FALSE
